@@ -147,6 +147,15 @@ def handle (line : String) : String :=
       | none => s!"ok {showNats (serAll (varRemove r.1))}"
       | some _ => "err"
     | none => "bad-request"
+  | "nzq" :: ws =>
+    -- as `nz`, plus whether the hypothesis of `normalize_bytes` holds of what was read
+    match nats? ws with
+    | some bytes =>
+      let r := deserialize bytes
+      match r.2 with
+      | none => s!"ok {b2i (decide (Post52Free r.1))} {showNats (serAll (varRemove r.1))}"
+      | some _ => "err"
+    | none => "bad-request"
   | "pos" :: ws =>
     match ints? ws >>= decOps with
     | some (ops, []) => showInts ((positions ops).map encMark).flatten
